@@ -59,9 +59,14 @@ func c13Handler(c *Ctx) {
 			if r.Intn(3) == 0 {
 				cf += r.PickS("segtimeline_1/", "timesubsstpp_en/", "timesubswvtt_en/", "ato_1/")
 			}
+			// a start time: the schedule is on the media timeline (zero at availabilityStartTime), like tfdt
+			startS := r.Pick(0, 0, 600, 1000, 7)
+			if startS != 0 {
+				cf += fmt.Sprintf("start_%d/", startS)
+			}
 			// MPD announcement
 			for _, mpd := range a.MPDs {
-				u := fmt.Sprintf("/livesim2/%s%s/%s?nowMS=%d", cf, a.AssetPath, mpd, int64(a.LoopDurMS)*2+1234)
+				u := fmt.Sprintf("/livesim2/%s%s/%s?nowMS=%d", cf, a.AssetPath, mpd, int64(startS)*1000+int64(a.LoopDurMS)*2+1234)
 				res := doLive("GET", u)
 				c.Count("scte-mpd")
 				m, err := parseMPD(res.body)
@@ -90,7 +95,7 @@ func c13Handler(c *Ctx) {
 				if (e.start-expectSeg(a, ref, k0, 0).start)/uint64(T) > 70 || k-k0 > 80 {
 					break
 				}
-				av, _ := availMS(e, T, 0, 0)
+				av, _ := availMS(e, T, startS, 0)
 				q := fmt.Sprintf("?nowMS=%d", av+int64(a.SegmentDurMS)+int64(r.Intn(500)))
 				want, werr := scte35.CreateEmsgAhead(e.start, e.end, uint64(T), N)
 				for ri := range a.Reps {
